@@ -196,7 +196,7 @@ class NumpyRef:
 
     def _ext_mask(self) -> np.ndarray:
         m = np.ma.getmaskarray(self.a)
-        return m.all(axis=self.int_axes) if self.int_axes else m
+        return np.asarray(m.all(axis=self.int_axes)) if self.int_axes else m
 
     def to_array(self, *, splat_internal=None):
         if splat_internal is None:
